@@ -85,8 +85,20 @@ One can reverse a captured panic stack trace as follows:
 					addHashedWithPackage(node.Name.Name)
 				case *ast.TypeSpec:
 					addHashedWithPackage(node.Name.Name)
+				case *ast.ValueSpec:
+					// Package-level variables, which "garble map" lists too.
+					for _, name := range node.Names {
+						if obj, _ := tf.info.ObjectOf(name).(*types.Var); obj != nil && obj.Parent() == tf.pkg.Scope() {
+							addHashedWithPackage(name.Name)
+						}
+					}
 				case *ast.Field:
 					for _, name := range node.Names {
+						if fn, _ := tf.info.ObjectOf(name).(*types.Func); fn != nil && !fn.Exported() {
+							// An unexported interface method.
+							addHashedWithPackage(name.Name)
+							continue
+						}
 						obj, _ := tf.info.ObjectOf(name).(*types.Var)
 						if obj == nil || !obj.IsField() {
 							continue
